@@ -67,6 +67,34 @@ def cache_params(w: World) -> dict[str, set[str]]:
     return denote
 
 
+def _alias_closure(fi, name: str) -> set[str]:
+    """Locals that may hold the very object `name` holds: `u = name`, `u = name if c else other`, `u = u if .. else ..`
+    after such a binding (copies made by list(..) / dict(..) / displays are other objects)."""
+    out = {name}
+    changed = True
+    while changed:
+        changed = False
+        for st in ast.walk(fi.node):
+            if not (isinstance(st, ast.Assign) and len(st.targets) == 1 and isinstance(st.targets[0], ast.Name)):
+                continue
+            u = st.targets[0].id
+            if u in out:
+                continue
+            v = st.value
+            cands = [v]
+            while cands:
+                c = cands.pop()
+                if isinstance(c, ast.IfExp):
+                    cands += [c.body, c.orelse]
+                elif isinstance(c, ast.BoolOp):
+                    cands += list(c.values)
+                elif isinstance(c, ast.Name) and c.id in out:
+                    out.add(u)
+                    changed = True
+                    break
+    return out
+
+
 def key_class(w: World, k: K, module: str) -> tuple[str, str]:
     """('bytes'|'nonstr'|'str'|'unknown', description)"""
     if k.tag == 'const':
@@ -220,7 +248,8 @@ def run(w: World, rep: Report):
                     if isinstance(par, ast.Assign) and par.value is x:
                         for t in par.targets:
                             if isinstance(t, ast.Name):
-                                bad = bad or _local_mutated(fi, t.id)
+                                for al in _alias_closure(fi, t.id):
+                                    bad = bad or _local_mutated(fi, al)
                     if isinstance(par, ast.IfExp):
                         gp = cfg.parent.get(id(par))
                         if isinstance(gp, ast.Assign):
